@@ -23,7 +23,18 @@ func (w *World) sentPublishes() []*Packet {
 // monitorInbound checks C06 for executions without connection loss: the
 // returns of ReadSlices equal the PUBLISH packets sent, byte-exact, in order.
 func (w *World) monitorInbound() {
-	sent := w.sentPublishes()
+	var sent []*Packet
+	for _, p := range w.sentPublishes() {
+		// a retransmitted exactly-once PUBLISH follows its original in the same
+		// stream: the marker is in place by then and the copy must be skipped
+		dup := false
+		for _, q := range sent {
+			dup = dup || p.QoS == 2 && p.Dup && q.QoS == 2 && q.ID == p.ID && q.Flags == p.Flags && q.Topic == p.Topic
+		}
+		if !dup {
+			sent = append(sent, p)
+		}
+	}
 	var got []*Delivery
 	for _, d := range w.deliveries {
 		if d.Err == nil || d.Big {
@@ -347,7 +358,7 @@ func init() {
 				Burst:    true,
 				Actors:   []ActorSpec{{Name: "reader", Reader: &ReaderSpec{Backoff: true, ReadBig: readBig}}},
 				Inbound:  in,
-				Faults:   Faults{ReadCuts: cutsEvery, ReadStall: true},
+				Faults:   Faults{ReadCuts: cutsEvery, ReadStall: true, BrokerResend: true},
 				Horizon:  3000,
 				Final: func(w *World) {
 					w.monitorWire()
